@@ -282,8 +282,15 @@ def _write_bins(d, bt, how):
 
 
 def _read_cooler(path):
+    import h5py
+
     import cooler
 
+    from .. import schema
+
+    with h5py.File(path, "r") as f:
+        probs = schema.validate(f["/"])
+    check(not probs, lambda: f"the loader wrote a structurally invalid collection: {probs[:3]}")
     clr = cooler.Cooler(path)
     df = clr.pixels()[:]
     return clr, {(a, b): c for a, b, c in zip(df["bin1_id"].tolist(), df["bin2_id"].tolist(), df["count"].tolist())}
@@ -350,7 +357,7 @@ def cli_load_cases(draw):
     if bad == "eq-len" and fmt == "coo":
         bad = "beyond"
     return {"part": "cli_load", "bt": bt, "records": recs, "fmt": fmt, "one_based": draw(st.booleans()),
-            "copy": draw(st.sampled_from(["unique", "unique", "duplex", "square"])),
+            "copy": draw(st.sampled_from(["unique", "unique", "duplex", "square", "square-duplex"])),
             "chunksize": draw(st.sampled_from([1, 2, 3, 1000])), "perm": draw(st.integers(0, 2**16)),
             "bins_as": draw(st.sampled_from(["bed", "chromsizes"])), "bad": bad, "bad_side": draw(st.integers(0, 1)),
             # a leading record-id column shifts every positional column: the format's own fields are overridden with --field
@@ -359,7 +366,8 @@ def cli_load_cases(draw):
 
 def check_cli_load(case, ctx: Ctx):
     bt, recs, fmt = case["bt"], case["records"], case["fmt"]
-    tril = {"unique": "reflect", "duplex": "drop", "square": None}[case["copy"]]
+    # --input-copy-status is documented for symmetric-upper storage only: with -N nothing is mirrored or dropped
+    tril = {"unique": "reflect", "duplex": "drop", "square": None, "square-duplex": None}[case["copy"]]
     sh = 1 if case["one_based"] else 0
     n = gen.n_bins(bt)
     br = model.bins_rows(bt)
@@ -413,9 +421,9 @@ def check_cli_load(case, ctx: Ctx):
                 args += ["--field", f"{nm}={k + 1 + sh_cols}"]
         if case["one_based"]:
             args.append("--one-based")
-        if case["copy"] == "duplex":
+        if case["copy"] in ("duplex", "square-duplex"):
             args += ["--input-copy-status", "duplex"]
-        if case["copy"] == "square":
+        if case["copy"] in ("square", "square-duplex"):
             args.append("-N")
         rc, _, exc = run_cli(args)
         if case["bad"] in ("neg", "beyond") and not bad_dropped_as_lower:
